@@ -80,17 +80,7 @@ def recompute_steady(model: dict, params: dict, tr_level=None) -> tuple[dict, di
         change["tr"] = params["g"]
     if "lvl" in tnames:
         steady["lvl"] = steady["tr"]; change["lvl"] = params["g"]
-    for j, nm in enumerate(model["mnames"]):
-        val = params[f"c{j+1}"]; chg = 0.0
-        for i, tn in enumerate(tnames):
-            d = params.get(f"d{j+1}_{i+1}")
-            if d is None:
-                continue
-            val += d * (math.log(steady[tn]) if lg[tn] else steady[tn])
-            chg += d * change.get(tn, 0.0)
-        if chg:
-            change[nm] = chg
-        steady[nm] = math.exp(val) if model["mlog"][j] else val
+    kc.measurement_steady(model, params, steady, change)
     return steady, change
 
 
